@@ -208,3 +208,8 @@ func TypeName(t types.Type) string {
 	}
 	return t.String()
 }
+
+// InSubjectPkg: the types package is one of the subject's.
+func (p *Prog) InSubjectPkg(pk *types.Package) bool {
+	return pk != nil && ((p.Main != nil && pk == p.Main.Pkg) || (p.Post != nil && pk == p.Post.Pkg))
+}
